@@ -95,6 +95,19 @@ def generate(rng, tier):
                 else:
                     body.append(inner)
                 _gap(rng, body, 0.4)
+            if rng.random() < 0.3:
+                # the share is contended: children of a scope inside the block borrow from it at
+                # overlapping times (what one gives back must reach the one who waits for it)
+                kids = []
+                for j in range(rng.randint(2, 3)):
+                    inner_caps = {k: v for k, v in amounts.items() if v > 0}
+                    inner = borrow_op(inner_caps, 2, nested=share)
+                    inner["body"].append({"op": "sleep", "d": rng.choice([0.25, 0.5, 1])})
+                    kid_ops = []
+                    _gap(rng, kid_ops, 0.5)
+                    kid_ops.append(inner)
+                    kids.append({"name": "m%s_%d" % (ident, j), "ops": kid_ops})
+                body.append({"op": "scope", "label": "C" + ident, "children": kids, "body": []})
         return op
 
     actors = []
@@ -102,7 +115,12 @@ def generate(rng, tier):
         ops = []
         _gap(rng, ops, 0.5)
         for _ in range(rng.randint(1, 2)):
-            ops.append(borrow_op(caps, 0))
+            block = borrow_op(caps, 0)
+            if rng.random() < 0.12:
+                # the block is left by an ordinary exception of its body (handled outside)
+                block["body"].append({"op": "raise", "type": rng.choice(["E", "K", "Z"])})
+                block = {"op": "try", "body": [block], "handler": []}
+            ops.append(block)
             _gap(rng, ops, 0.4)
         actors.append({"name": "u%d" % i, "ops": ops})
     no_adjust = False
